@@ -693,7 +693,7 @@ pub fn run(run: &mut Run) -> Result<(), String> {
         "C07" | "C10" | "C12" => {
             let mut plan = Plan::empty();
             if q {
-                plan.start = Some(b(3, 1));
+                plan.start = Some(b(if prop == "C12" { 3 } else { 4 }, 1));
                 plan.mid = Some(b(2, 1));
                 plan.r960 = Some(b(1, 1));
                 plan.clock = Some(b(2, 1));
